@@ -46,12 +46,14 @@ pub fn parse_query_string(input: &str) -> Result<Request, ParseRequestError> {
         .map_err(|err| std::io::Error::other(format!("invalid extensions: {}", err)))?
         .unwrap_or_default();
 
+    // the query string of a GET request must never execute a mutation
     Ok(Request {
         operation_name: request.operation_name,
         variables,
         extensions,
         ..Request::new(request.query)
-    })
+    }
+    .disallow_mutation())
 }
 
 /// Receive a GraphQL request from a content type and body.
